@@ -77,7 +77,7 @@ func mutate(t *rapid.T, text string) (string, string) {
 			out[i] = "`" + inner + "`"
 		case strings.HasPrefix(s, "\"") && len(s) >= 2:
 			inner := s[1 : len(s)-1]
-			inner += gen.Pick(t, "badesc", []string{"\\x", "\\u12", "\\u12G4", "\\", "\\uD83D", "\\uD83Dxu0041", "\\uD83D\\n", "\\uDC00", "\\'", "\\a"})
+			inner += gen.Pick(t, "badesc", []string{"\\x", "\\u12", "\\u12G4", "\\", "\\uD83D", "\\uD83Dxu0041", "\\uD83D\\n", "\\uDC00", "\\'", "\\a", "\\uD83D\\x0041", "\\ud800\\00000", "\\uD83D\\u  00", "\\uD83D\\u00/0", "\\uD83D\\uDE0", "\\uD83D\\UDE00", "\\ud83d\\ude00", "\\uD83D\\u+E00"})
 			if rapid.Bool().Draw(t, "close") {
 				out[i] = "\"" + inner + "\""
 			} else {
